@@ -15,6 +15,8 @@ pub mod procedures;
 pub mod stdlib;
 pub mod traits;
 pub mod value;
+#[cfg(feature = "verif-hooks")]
+pub mod verif;
 pub mod vm;
 
 mod bytecode;
